@@ -64,6 +64,7 @@ rep('''	rec := append(append(append(cU16(id), cU16(3)...), cU16(2)...), append(a
 	set := append(append(cU16(1), cU16(4+len(rec))...), rec...)
 	msg := append([]byte{0, 9, 0, 1}, make([]byte, 16)...)
 	return append(msg, set...)''')
+rep("const cVarLen = 65535", "const cVarLen = 7 // (NetFlow v9 has no variable-length encoding: a short fixed string)")
 rep('''	set := append(append(cU16(id), cU16(4+len(body))...), body...)
 	msg := append(append([]byte{0, 10}, cU16(16+len(set))...), make([]byte, 12)...)
 	return append(msg, set...)''', '''	set := append(append(cU16(id), cU16(4+len(body))...), body...)
